@@ -19,6 +19,7 @@ from .. import oracle
 from ..gen import Gen, Universe
 from ..passcheck import count_verdicts, node_classes, skeleton
 from ..seval import S
+from ..world import CurvedWorld
 from .C03 import derivative_targets_ok
 from .C04 import contains
 
@@ -43,7 +44,7 @@ ASSUMPTIONS = [
 ]
 BUDGET = {"quick": 50, "thorough": 450}
 NCASES = {"quick": 3000, "thorough": 60000}
-FLOORS = {"quick": {"case_held": 400, "nontrivial": 300}, "thorough": {"case_held": 8000, "nontrivial": 6000}}
+FLOORS = {"quick": {"case_held": 400, "nontrivial": 300, "curved_held": 40}, "thorough": {"case_held": 8000, "nontrivial": 6000, "curved_held": 500}}
 VARIANTS = ["whole", "whole", "component", "tuple", "auto", "second", "cd", "coef-direction", "mixed-split", "tuple-mixedarg", "tuple-auto", "two-derivatives"]
 COVER_FLOORS = {"quick": {"variants_held": ["whole", "component", "tuple", "auto", "second", "coef-direction", "tuple-mixedarg", "tuple-auto"]}, "thorough": {"variants_held": ["whole", "component", "tuple", "auto", "second", "coef-direction", "cd", "mixed-split", "tuple-mixedarg", "tuple-auto"]}}
 CELLS = [("interval", 1), ("triangle", 2), ("triangle", 2), ("triangle", 3), ("tetrahedron", 3)]
@@ -129,13 +130,23 @@ def two_derivatives(ctx, rng, cell, gdim, cplx, itype, U, G):
         ctx.add_distinct((skeleton(F1, 3), "two-derivatives", kinds, cell, gdim, itype, cplx))
 
 
-def case(ctx, i, rng):
+def case(ctx, i, rng, curved=None):
+    # about one case in ten runs on a non-affine cell (P2 coordinate element, vf.world.CurvedWorld): the property
+    # quantifies over all field values, and there nothing is cellwise constant or of bounded polynomial degree in x
+    curved = (rng.random() < 0.1) if curved is None else curved
     cell, gdim = rng.choice(CELLS)
     cplx = rng.random() < 0.25
     itype = rng.choice(["cell", "cell", "cell", "exterior_facet", "interior_facet"])
-    U = Universe(rng, cell, gdim, itype, cplx)
+    if curved:
+        cell, gdim = rng.choice([("interval", 1), ("triangle", 2), ("triangle", 2), ("tetrahedron", 3)])
+        itype = "cell"
+    U = Universe(rng, cell, gdim, itype, cplx, coord_degree=2 if curved else 1)
     variant = VARIANTS[i % len(VARIANTS)] if rng.random() < 0.7 else rng.choice(VARIANTS)
     G = Gen(U, rng, cplx=cplx, deriv=rng.choice([0, 1, 1, 2]), cond=rng.random() < 0.3, math=rng.random() < 0.8, geom=rng.random() < 0.4)
+    if curved:
+        G.geo_scalar_classes = [ufl.JacobianDeterminant]  # what the curved world models
+        if variant == "two-derivatives":
+            variant = "whole"
     if variant == "two-derivatives":
         return two_derivatives(ctx, rng, cell, gdim, cplx, itype, U, G)
     names = sorted(U.spaces)
@@ -263,7 +274,11 @@ def case(ctx, i, rng):
     ctx.count("accepted")
     for c in node_classes(F):
         ctx.covered("integrand_node_classes", c)
-    worlds = oracle.worlds_for(rng, cell, gdim, itype, cplx, n=3)
+    if curved:
+        worlds = [CurvedWorld(rng, cell, gdim, cplx) for _ in range(3)]
+        ctx.count("curved_cases")
+    else:
+        worlds = oracle.worlds_for(rng, cell, gdim, itype, cplx, n=3)
 
     def fin(wd, B):
         return S(F, wd, B, gateaux=list(frames))
@@ -280,6 +295,8 @@ def case(ctx, i, rng):
     verdict = oracle.decide(vs)
     ctx.count("case_" + verdict)
     dep = contains(F, w)
+    if curved:
+        ctx.count("curved_" + verdict.replace("-", "_"))
     if verdict == "held":
         ctx.covered("variants_held", variant)
         if dep:
@@ -293,7 +310,7 @@ def case(ctx, i, rng):
         bad = next(v for v in vs if v.kind in ("disagree", "output-ambiguous"))
         culprit = localise(F, frames, variant, worlds)
         ctx.violation(
-            f"C02/{variant}/{culprit}",
+            f"C02/{variant}/{culprit}" + ("/non-affine" if curved else ""),
             f"expand_derivatives(derivative(F, ...)) differs from d/dtau F(w + tau v) (rel. err {bad.err}, {bad.why})",
             {"F": str(F)[:1500], "derivative": str(e)[:600], "expanded": str(out)[:1500], "variant": variant, "world": worlds[0].describe()},
         )
